@@ -115,4 +115,10 @@ theorem PRBM.pair_effEnergyGrad (r d : PRBM ℝ n h a) {B : ℕ} (vs : Fin B →
   rw [← this]
   simp only [PRBM.pair, PRBM.effEnergyGrad, PRBM.effEnergyGrad1, sumFin_eq, Finset.sum_neg_distrib]
 
+theorem PRBM.pair_add (x y d : PRBM ℝ n h a) : (x.add y).pair d = x.pair d + y.pair d := by
+  simp only [PRBM.pair, PRBM.add, add_mul, Finset.sum_add_distrib]; ring
+
+theorem PRBM.pair_zero (d : PRBM ℝ n h a) : (PRBM.zero : PRBM ℝ n h a).pair d = 0 := by
+  simp [PRBM.pair, PRBM.zero]
+
 end QV
